@@ -7,6 +7,7 @@ import (
 	"fmt"
 	"hash/crc32"
 	"io"
+	"math"
 
 	"github.com/klauspost/compress/zstd"
 	"github.com/pierrec/lz4/v4"
@@ -425,6 +426,9 @@ func loadChunk(l *Lexer, recordLen uint64) error {
 			return ErrChunkTooLarge
 		}
 		if uint64(len(l.uncompressedChunk)) < uncompressedSize {
+			if uncompressedSize > math.MaxInt32 {
+				return fmt.Errorf("failed to allocate chunk buffer: %w", ErrLengthOutOfRange)
+			}
 			l.uncompressedChunk, err = makeSafe(uncompressedSize * 2)
 			if err != nil {
 				return fmt.Errorf("failed to allocate chunk buffer: %w", err)
